@@ -14,4 +14,10 @@ PROPERTIES = {
                     "prefix invariant over the server's frame sequence",
         assumptions=["interoperability with a live websockets server beyond the call signature is outside this family"],
     ),
+    "C11": dict(
+        modules=["contracts.c11_clients"],
+        explanation="run-time base clients: value conversion, JSON request construction, (multipart separation), "
+                    "one shared contract instantiated for each of the four bundled clients",
+        assumptions=["bytes on the wire for multipart are httpx's", "interleavings inside httpx are outside this family"],
+    ),
 }
